@@ -44,6 +44,16 @@ CHECKS["C09"] = dict(
    text="All pattern ASTs of <= 3 nodes (4 nodes and three-term sequences sampled/sharded; 5 nodes in thorough) over an alphabet with every operator kind x all subjects up to length 4-5 x flag sets, and random deeper patterns with subjects derived from the pattern, are matched by the engine (Python API, script-level RegExp and literals for a sample) and by an independent specification-style matcher; match/no match, index, matched text and every capture (unset vs empty) must agree. 3.3e6 attempts in quick, 5e7 in thorough.",
    note="Trusts oracles/reref.py (0 disagreements with node 20 on 1.95e6 triples at development time). Cases where either side exhausts its step budget are out of scope. Unicode mode is outside the generated alphabet.",
    ref="4/C09")
+CHECKS["C11"] = dict(
+   technique="Hypothesis-generated JSON-like values through set/get/eval round trips with typed deep equality, freshness (aliasing) probes, exposed-callable recording and seeded random set/eval/get interleavings against a dict model",
+   text="Values over boundary ints/floats (NaN, -0, infinities, |int| > 2^53), strings incl. control and non-BMP text, awkward keys and nesting go through set->get, set->eval, the script's own view (null vs undefined, typeof at every node), literal->eval, arguments and return values of exposed Python callables, and 25-step interleavings on one context; comparison is typed (bool != int, int stays int, float stays float, key order), returned containers are mutated to prove nothing mutable is shared.",
+   note="Domain restricted to what the property states: JSON-like values with str keys; host callables return primitives or None.",
+   ref="4/C11")
+CHECKS["C15"] = dict(
+   technique="differential self-consistency across host hash seeds (one subprocess per PYTHONHASHSEED), evaluation orders, polluted processes and repetition; generated programs carry their expected value",
+   text="400 (4000) seeded closure-heavy programs (>= 3 parameters/locals/closures, captured and pass-through variables in shuffled textual order, named function expressions, arguments, shadowing) and the whole 383-program corpus are evaluated on fresh contexts under 16 (72) hash seeds, forward/reversed/shuffled orders, after a context that mutated built-ins, and twice in a row; every outcome vector (value, error class and message, log) must be identical, and each generated program must also produce the value computed by the generator.",
+   note="Programs stopped by the wall-clock time limit are excluded (clock dependent by definition). Math.random/Date.now are never generated and filtered from the corpus.",
+   ref="4/C15")
 NA = {}
 m = {
  "version": 1,
